@@ -114,7 +114,8 @@ impl Gram {
         let mut kinds = HashMap::new();
         for (k, e) in raw["kinds"].as_object().unwrap() {
             let params = |v: &Value| -> Vec<String> {
-                v["params"].as_array().map(|a| a.iter().map(|p| p["k"].as_str().unwrap().to_string()).collect()).unwrap_or_default()
+                // a parameter's quantifier travels as a suffix of its kind: "LiteralInteger*" (ZeroOrMore), "X?" (ZeroOrOne)
+                v["params"].as_array().map(|a| a.iter().map(|p| format!("{}{}", p["k"].as_str().unwrap(), match p["q"].as_str() { Some("ZeroOrMore") => "*", Some("ZeroOrOne") => "?", _ => "" })).collect()).unwrap_or_default()
             };
             let kg = match e["cat"].as_str().unwrap() {
                 "ValueEnum" => {
@@ -201,6 +202,8 @@ thread_local! {
     /// when set, generated instructions never rely on type declarations (context-dependent literals are one word under
     /// an undeclared type): for callers that cannot emit the declarations along with the instruction
     pub static NO_CTX: std::cell::Cell<bool> = std::cell::Cell::new(false);
+    /// number of occurrences of a ZeroOrMore parameter of an enumerant (None = random 0..3)
+    pub static FORCE_REPS: std::cell::Cell<Option<usize>> = std::cell::Cell::new(None);
     /// value to use for the next PARAMETER of the given enum / mask kind (kinds such as BuiltIn or FPFastMathMode occur
     /// only as parameters of enumerants; the sweeps set this to reach every one of their values)
     pub static FORCE_PARAM: std::cell::RefCell<Option<(String, u32)>> = std::cell::RefCell::new(None);
@@ -217,9 +220,20 @@ pub fn param_kind_sites(g: &Gram) -> Vec<(String, u32, String)> {
         };
         for (v, ps) in vals {
             for pk in ps {
+                let pk = pk.trim_end_matches(|c| c == '*' || c == '?').to_string();
                 if matches!(g.kinds.get(&pk), Some(KindG::ValueEnum { .. }) | Some(KindG::BitEnum { .. })) { out.push((k.clone(), v, pk)); }
             }
         }
+    }
+    out.sort();
+    out
+}
+/// (kind K, value v): enumerants one of whose parameters may occur any number of times
+pub fn variadic_param_sites(g: &Gram) -> Vec<(String, u32)> {
+    let mut out = vec![];
+    for (k, kg) in &g.kinds {
+        if let KindG::ValueEnum { values } = kg { for v in values { if v.1.iter().any(|p| p.ends_with('*')) { out.push((k.clone(), v.0)); } } }
+        if let KindG::BitEnum { bits, .. } = kg { for b in bits { if b.1.iter().any(|p| p.ends_with('*')) { out.push((k.clone(), b.0)); } } }
     }
     out.sort();
     out
@@ -287,6 +301,9 @@ impl<'g> Gen<'g> {
     }
     /// One concrete operand of `kind` (plus its parameters).  `forced`: first word to use.
     pub fn operand(&self, kind: &str, rng: &mut Rng, ctx: &mut Ctx, forced: Option<u32>, rt_words: usize, sel_words: usize, out: &mut Vec<SOp>) {
+        // quantified parameters of enumerants (see Gram::load): any number / at most one occurrence
+        if let Some(base) = kind.strip_suffix('*') { let n = FORCE_REPS.with(|f| f.get()).unwrap_or_else(|| rng.below(4)); for _ in 0..n { self.operand(base, rng, ctx, None, rt_words, sel_words, out); } return; }
+        if let Some(base) = kind.strip_suffix('?') { if rng.chance(1, 2) { self.operand(base, rng, ctx, None, rt_words, sel_words, out); } return; }
         match kind {
             "IdRef" | "IdScope" | "IdMemorySemantics" => out.push(SOp::one(kind, forced.unwrap_or_else(|| self.id(rng)))),
             "LiteralInteger" | "LiteralFloat" => out.push(SOp::one("LiteralBit32", forced.unwrap_or_else(|| self.lit(rng)))),
